@@ -1,7 +1,7 @@
 SPECIFICATION TSpec
 CONSTANTS
   MinCalls = 10
-  EntryPoints = {"rng::copy_randombytes", "rng::randombytes_buf", "StackByteArray::gen", "[u8; N]::gen", "Vec<u8>::gen", "crypto_secretbox_keygen", "crypto_secretbox_keygen_inplace", "crypto_auth_keygen", "crypto_onetimeauth_keygen", "crypto_shorthash_keygen", "crypto_generichash_keygen", "crypto_kdf_keygen", "crypto_secretstream_keygen", "crypto_box_keypair", "crypto_box_keypair_inplace", "crypto_kx_keypair", "crypto_sign_keypair", "crypto_sign_keypair_inplace", "KeyPair::gen", "KeyPair::gen_with_defaults", "SigningKeyPair::gen", "SigningKeyPair::gen_with_defaults", "Kdf::gen", "Kdf::gen_with_defaults", "crypto_box_seal ephemeral key", "DryocBox::seal ephemeral key", "crypto_secretstream init_push header", "DryocStream::init_push header", "PwHash::hash salt", "PwHash::hash_with_defaults salt", "PwHash::hash_interactive salt", "crypto_pwhash_str salt", "HeapByteArray::gen", "Locked<HeapByteArray>::gen", "HeapByteArray::gen_locked", "HeapByteArray::gen_readonly_locked", "KeyPair::gen_locked_keypair", "KeyPair::gen_readonly_locked_keypair", "SigningKeyPair::gen_locked_keypair", "SigningKeyPair::gen_readonly_locked_keypair"}
+  EntryPoints = {"rng::copy_randombytes", "rng::randombytes_buf", "StackByteArray::gen", "[u8; N]::gen", "Vec<u8>::gen", "crypto_secretbox_keygen", "crypto_secretbox_keygen_inplace", "crypto_auth_keygen", "crypto_onetimeauth_keygen", "crypto_shorthash_keygen", "crypto_generichash_keygen", "crypto_kdf_keygen", "crypto_secretstream_keygen", "crypto_box_keypair", "crypto_box_keypair_inplace", "crypto_kx_keypair", "crypto_sign_keypair", "crypto_sign_keypair_inplace", "KeyPair::gen", "KeyPair::gen_with_defaults", "SigningKeyPair::gen", "SigningKeyPair::gen_with_defaults", "Kdf::gen", "Kdf::gen_with_defaults", "crypto_box_seal ephemeral key", "DryocBox::seal ephemeral key", "crypto_secretstream init_push header", "DryocStream::init_push header", "PwHash::hash salt", "PwHash::hash salt (salt_length 8)", "PwHash::hash salt (salt_length 17)", "PwHash::hash salt (salt_length 64)", "PwHash::hash_with_defaults salt", "PwHash::hash_interactive salt", "crypto_pwhash_str salt", "HeapByteArray::gen", "Locked<HeapByteArray>::gen", "HeapByteArray::gen_locked", "HeapByteArray::gen_readonly_locked", "KeyPair::gen_locked_keypair", "KeyPair::gen_readonly_locked_keypair", "SigningKeyPair::gen_locked_keypair", "SigningKeyPair::gen_readonly_locked_keypair"}
 INVARIANTS AllCovered
 POSTCONDITION Accepted
 CHECK_DEADLOCK FALSE
